@@ -96,6 +96,22 @@ def np_full(it, a, k):
     return mk_vec("np", "a1", n, lambda i: v, "fresh")
 
 
+def np_zeros_like(it, a, k):
+    x = a[0]
+    if not isinstance(x, Arr) or x.dialect != "np":
+        raise Unsupported("np.zeros_like of something else than a numpy array")
+    if x.is_scalar:
+        raise Unsupported("np.zeros_like of a numpy scalar / 0-d array")
+    zero = T.const(0, T.REAL)
+    return mk_vec("np", "a1", x.n, lambda i: zero, "fresh")
+
+
+def np_zeros(it, a, k):
+    n = T.lift(_shape_len(a[0]), T.INT)
+    zero = T.const(0, T.REAL)
+    return mk_vec("np", "a1", n, lambda i: zero, "fresh")
+
+
 def np_rand(it, a, k):
     return _fresh_array(T.lift(a[0], T.INT), "rand")
 
@@ -113,6 +129,8 @@ def make_module():
     ns["hstack"] = Builtin("np.hstack", np_hstack)
     ns["empty"] = Builtin("np.empty", np_empty)
     ns["full"] = Builtin("np.full", np_full)
+    ns["zeros"] = Builtin("np.zeros", np_zeros)
+    ns["zeros_like"] = Builtin("np.zeros_like", np_zeros_like)
     rnd = ModuleValue("numpy.random")
     rnd.ns["rand"] = Builtin("np.random.rand", np_rand)
     rnd.ns["randn"] = Builtin("np.random.randn", np_rand)
